@@ -532,10 +532,10 @@ impl Range {
         ) = (&min, &max, data_type)
         {
             // Scaled integer limits are raw values that use scale and offset of the attribute
-            Ok(Some(Self::from_min_max(
-                *min as f64 * *scale + *offset,
-                *max as f64 * *scale + *offset,
-            )?))
+            // (a negative scale reverses the order of the limits)
+            let a = *min as f64 * *scale + *offset;
+            let b = *max as f64 * *scale + *offset;
+            Ok(Some(Self::from_min_max(a.min(b), a.max(b))?))
         } else if let (Some(RecordValue::Double(min)), Some(RecordValue::Double(max))) =
             (&min, &max)
         {
@@ -575,10 +575,12 @@ impl Range {
                 max,
                 scale,
                 offset,
-            } => Self::from_min_max(
-                *min as f64 * *scale + *offset,
-                *max as f64 * *scale + *offset,
-            ),
+            } => {
+                // A negative scale reverses the order of the limits
+                let a = *min as f64 * *scale + *offset;
+                let b = *max as f64 * *scale + *offset;
+                Self::from_min_max(a.min(b), a.max(b))
+            }
             RecordDataType::Integer { min, max } => Self::from_min_max(*min as f64, *max as f64),
         }
     }
